@@ -1008,3 +1008,125 @@ def scen_s2b_twice(ctx, M):
                           if ctx.sym else r == want)
     ctx.goal('done')
     return (outs[0][0], outs[1][0])
+
+
+# ---------------------------------------------------------------- C14 uuid
+UU = 'oslo_utils.uuidutils'
+HEX32 = '0123456789abcdef0123456789ABCDEF'
+UUDOM = frozenset(b'09afAFgz_x+- {}:')
+
+
+def load_sym_uuid():
+    from symx import symuuid
+    ld = env.Loader(env={'uuid': symuuid.FakeUUIDModule})
+    m = Mods()
+    m.uu = ld.load(UU)
+    m.sha = ld.sha
+    return m
+
+
+def load_real_uuid():
+    m = Mods()
+    m.uu = env.import_real(UU)
+    return m
+
+
+def decorate(kind, body):
+    """body: 32 characters (str/SymStr)"""
+    if kind == 'plain':
+        return body
+    if kind == 'hyphenated':
+        return cat(body[:8], '-', body[8:12], '-', body[12:16], '-',
+                   body[16:20], '-', body[20:])
+    if kind == 'braced':
+        return cat('{', decorate('hyphenated', body), '}')
+    if kind == 'urn':
+        return cat('urn:uuid:', decorate('hyphenated', body))
+    raise ValueError(kind)
+
+
+def scen_uuid_like(ctx, M):
+    """is_uuid_like on a 30..34-character body with symbolic characters at
+    chosen positions, in every decoration"""
+    uu = M.uu
+    kind = ctx.p['decoration']
+    length = ctx.choice('length', ctx.p.get('lengths', [32]))
+    base = (HEX32 * 2)[:length]
+    pos = ctx.p['positions']
+    chars = []
+    for i, ch in enumerate(base):
+        if i in pos or (i - length) in pos:
+            chars.append(ctx.str('c%d' % i, 1, UUDOM))
+        else:
+            chars.append(ch)
+    body = chars[0]
+    for c_ in chars[1:]:
+        body = cat(body, c_)
+    if length == 32:
+        val = decorate(kind, body)
+    else:
+        val = body if kind == 'plain' else cat('{', body, '}') \
+            if kind == 'braced' else cat('urn:uuid:', body) \
+            if kind == 'urn' else cat(body[:8], '-', body[8:])
+    try:
+        r = uu.is_uuid_like(val)
+        out = 'ok'
+    except Exception as e:
+        r, out = None, 'EXC:' + type(e).__name__
+    ctx.check('C14-uuid-never-raises', out == 'ok')
+    # reference: decoration removed, exactly 32 hex digits
+    norm = val.replace('urn:', '').replace('uuid:', '').strip('{}') \
+        .replace('-', '')
+    want = False
+    if len(norm) == 32:
+        import z3
+        conj = []
+        for ch in sstr.tosym(norm).c:
+            if isinstance(ch, int):
+                if ch not in sstr_hex():
+                    conj = None
+                    break
+            else:
+                conj.append(core.set_term(ch.term(), sstr_hex()))
+        if conj is not None:
+            want = core.wrapbool(z3.And(*conj)) if conj else True
+    if out == 'ok':
+        got = ctx.truth(r) if not isinstance(r, bool) else r
+        ctx.check('C14-uuid-like', h.veq(got, want))
+        ctx.goal('accepted' if got else 'rejected')
+    return (out,)
+
+
+def sstr_hex():
+    return frozenset(b'0123456789abcdefABCDEF')
+
+
+def scen_generate_uuid(ctx, M):
+    """everything generate_uuid produces is uuid-like and well formed"""
+    uu = M.uu
+    if ctx.sym:
+        from symx import symuuid
+        bs = [ctx.byte_var('r%d' % k) for k in range(16)]
+        for k, b in enumerate(bs):
+            ctx.reg.append(('r%d' % k, 'int', b))
+        symuuid.FakeUUIDModule.source = lambda: bs
+        d = uu.generate_uuid()
+        u = uu.generate_uuid(dashed=False)
+    else:
+        import uuid as _uuid
+        import unittest.mock as mock
+        raw = bytes(ctx.i['r%d' % k] for k in range(16))
+        with mock.patch('os.urandom', lambda n: raw):
+            d = uu.generate_uuid()
+            u = uu.generate_uuid(dashed=False)
+    ctx.check('C14-generate-shape', len(d) == 36 and len(u) == 32)
+    for i in (8, 13, 18, 23):
+        ctx.check('C14-generate-dashes', d[i] == '-')
+    ctx.check('C14-generate-same-digits', d.replace('-', '') == u)
+    ctx.check('C14-generated-is-uuid-like',
+              h.veq(uu.is_uuid_like(d), True))
+    ctx.check('C14-generated-undashed-is-uuid-like',
+              h.veq(uu.is_uuid_like(u), True))
+    ctx.check('C14-generate-version-4', d[14] == '4')
+    ctx.goal('done')
+    return ()
